@@ -440,14 +440,25 @@ func diffCase(id int, seed int64, out *json.Encoder, big bool) {
 	bothPersisted := (oldS == nil || oldS.root != nil) && newS.root != nil && ev.Resid == "pp"
 
 	ev.Stores = "one"
-	var mirror *recStore
+	var mirror, oldOnly *recStore
 	if bothPersisted {
 		if rng.Intn(3) == 0 {
-			// a replica: the same nodes in another store; the old version is read from the original, the new one from the replica
+			// two independent stores: the old version is read from a store that holds only the old version's nodes, the new
+			// version from one that holds only the new version's nodes (a replica diffing a publisher's version)
 			ev.Stores = "two"
-			mirror = newRecStore(r.st.prefix + "-mirror")
-			for n, b := range r.st.m {
-				mirror.m[n] = b
+			mirror = newRecStore(r.st.prefix + "-new")
+			oldOnly = newRecStore(r.st.prefix + "-old")
+			acc := map[string]bool{}
+			r.proj.reach(linkOf(newS.root), acc)
+			for n := range acc {
+				mirror.m[n], _ = r.st.get(n)
+			}
+			acc = map[string]bool{}
+			if oldS != nil {
+				r.proj.reach(linkOf(oldS.root), acc)
+			}
+			for n := range acc {
+				oldOnly.m[n], _ = r.st.get(n)
 			}
 		}
 		ev.DCache = rng.Intn(4) == 0
@@ -472,7 +483,11 @@ func diffCase(id int, seed int64, out *json.Encoder, big bool) {
 		}
 		var o2 *mast.Mast
 		if oldS != nil {
-			o2 = open(oldS, r.st)
+			ost := r.st
+			if oldOnly != nil {
+				ost = oldOnly
+			}
+			o2 = open(oldS, ost)
 		}
 		nst := r.st
 		if mirror != nil {
@@ -484,12 +499,14 @@ func diffCase(id int, seed int64, out *json.Encoder, big bool) {
 		r.st.begin()
 		if mirror != nil {
 			mirror.begin()
+			oldOnly.begin()
 		}
 	}
 	endAll := func() []storeEvent {
 		sev := r.st.end()
 		if mirror != nil {
 			sev = append(sev, mirror.end()...)
+			sev = append(sev, oldOnly.end()...)
 		}
 		return sev
 	}
